@@ -38,7 +38,7 @@ SPEC = {
         {"name": "pred_regex_literal", "run": "^TestPredRegexLit$", "quick": B(250, 3), "thorough": B(4000, 3, 5400)},
         {"name": "pred_regex_full", "run": "^TestPredRegexFull$", "quick": B(150, 4), "thorough": B(2200, 4, 5400)},
         # black box (real server); kept last so that the seeds of the library campaigns do not move
-        {"name": "bb_predicates", "run": "^TestBBTagPredicates$", "quick": B(14, 4, 600, shrinktime="20s"), "thorough": B(230, 6, 3000, shrinktime="120s")},
+        {"name": "bb_predicates", "run": "^TestBBTagPredicates$", "quick": B(14, 4, 600, shrinktime="20s"), "thorough": B(300, 6, 3000, shrinktime="120s")},
     ],
     "max_parallel": 20,
 }
